@@ -182,7 +182,7 @@ class Gen:
                 out.append(('truncated-json', b[:rng.randint(1, len(b) - 1)]))
             elif r < 0.87:
                 out.append(('brace-junk', b'{junk ' + AG.enc(AG.text(rng, maxlen=40, invalid=False).replace('\n', ' '))))
-            elif r < 0.92 and not ctu:
+            elif r < 0.92:
                 # exclusion named by known finding C34 witness:ctu-type-mismatch-abort: a line of wrong
                 # shape in the whole-program invocation aborts cppcheck, so only per-file invocations get them
                 out.append(('mutated-shape', AG.jdump(self.wrongtype(primary_file), rng)))
